@@ -158,7 +158,7 @@ def space(tier, seed):
         for tr in sorted(SITES[site]["transformers"]):
             nact = sum(1 for c in SITES[site]["classes"].values() if c[1] == tr)
             nch = 1 if nact <= 3 else (4 if nact <= 6 else 16)
-            for ch in range(nch):
+            for ch in range(nch if tier == "thorough" else 1):  # quick: the first share of the directions (with no capacity every direction is alike)
                 items.append({"site": site, "basic": True, "factor": 0, "tr": tr, "tier": tier, "chunk": [ch, nch], "voltage": 208})
     items.append({"site": "simple", "basic": True, "factor": 1, "tr": "agg", "tier": tier})
     return items
@@ -381,6 +381,20 @@ def execute(item, only=None):
                     oracle(spec, item["factor"], sums, rep, dict(ctx, lam=lam, linear=True), stats)
                     for k in range(n0, len(viol)):
                         viol[k] = ("linear:" + viol[k][0],) + tuple(viol[k][1:])
+        # whole-ampere schedules handed over as INTEGER arrays (what a scheduler for finite-rate EVSEs produces): the
+        # verdict is about the values, whatever the dtype, and what is accepted respects the ratings
+        if do_linear:  # (the same sub-space as the linear pass: basic EVSEs, nominal and zero capacity; thorough: all)
+            for fct in (1.0, 1.03, 1.1):
+                xi = np.floor(realise(spec, idx, n, {c: min(v * lam_star * fct, capv[c]) for c, v in full.items()}))
+                stats["feas_calls"] += 2
+                stats["n"] += 1
+                v_int = bool(net.is_feasible(xi.astype(np.int64)))
+                v_flt = bool(net.is_feasible(xi.astype(float)))
+                if v_int != v_flt:
+                    rep("dtype:integer-schedule-judged-differently", "the same whole-ampere schedule is %s as an int64 array and %s as a float array" % ("accepted" if v_int else "rejected", "accepted" if v_flt else "rejected"), v_int, v_flt, dict(ctx, lam=lam_star * fct))
+                elif v_int:
+                    sums_i = {c: float(sum(xi[idx[m], 0] for m in spec["classes"][c][3])) for c in classes}
+                    oracle(spec, item["factor"], sums_i, rep, dict(ctx, lam=lam_star * fct, integer=True), stats)
         for lam in lam_pts:
             sums = {c: v * lam for c, v in full.items()}
             stats["n"] += 1
